@@ -83,7 +83,9 @@ MUTANTS = [
     ('C05', 'no-complete-flag', (R, COMPONENTS, "    complete = True\n\n    def __init__", "    def __init__"), 'C05.e'),
     ('C05', 'fire-at-one', (R, MANAGER, "            if event.effects > 0:\n                break  # some", "            if event.effects > 1:\n                break  # some"), 'C05.c'),
     # ---- C06
-    ('C06', 'revert-yield-none', ('revert', '311ed91'), 'C06.b'),
+    ('C06', 'revert-throw-then-call', ('revert', '3d8c887'), 'C06.b'),
+    ('C06', 'yield-none-not-continued', (R, MANAGER, "                        value_generator = (val for val in (value,))\n                        self.registerTask((event, value_generator, parent))",
+                                         "                        if value is not None:\n                            value_generator = (val for val in (value,))\n                            self.registerTask((event, value_generator, parent))"), 'C06.b'),
     ('C06', 'revert-timeout-handler', ('revert', 'dd7075b'), 'C06.a'),
     ('C06', 'revert-guard-agreement', ('revert', '0cb88d8'), 'C06.d'),
     ('C06', 'revert-catch-all', ('revert', 'cbd2cef'), 'C06.b'),
